@@ -394,6 +394,9 @@ func (in *Interp) hashUF(kind string, input []*Term, outBytes int) []*Term {
 			}
 		}
 	}
+	if out, ok := in.initTimeDigest(kind, input, outBytes); ok { // x_c03.go
+		return out
+	}
 	if in.concrete != nil {
 		data := make([]byte, len(input))
 		for i, t := range input {
